@@ -62,6 +62,7 @@ func vhCrashSwap(fault bool) {
 		v.Reach("not-struck")
 	}
 	v.Assert(v.Implies(used, restorable), "C07 A1 swap: inputs consumed => the outputs are restorable")
+	v.Assert(v.Implies(restorable, used), "C07 S1 swap: output signatures are stored (restorable by anyone who knows B_) only once the inputs are consumed - otherwise the value exists twice")
 	if returned && err == nil {
 		v.Assert(v.And(used, restorable, len(sigs) == 1), "C07 D1 swap: a response the client received is durable (spent stays spent, signatures stored)")
 	}
